@@ -28,6 +28,7 @@ typedef u16 verif_bitset16;                                /* std::bitset<16> */
 #define VERIF_OK 0
 #define VERIF_ABORT 1     /* deliberate ASSERT / UNREACHABLE abort */
 #define VERIF_UNIMPL 2    /* UnimplementedException */
+#define VERIF_OUTOFRANGE 5 /* std::out_of_range from a constant table lookup: not a legal exit */
 #define VERIF_CRASH 4     /* division by zero, wild access: not a legal exit */
 #define VERIF_BADCALL 3   /* std::bad_function_call: invoking an empty std::function (not a legal exit) */
 extern int verif_outcome;
@@ -43,6 +44,7 @@ extern int verif_outcome;
 #  endif
 #  define VERIF_INDETERMINATE(T) ((T)nondet_u64())
 #  define VERIF_FN_CHECK(f) __CPROVER_assert((f).set, "REPO-CALLBACK std::function invoked has a target")
+#  define VERIF_OUT_OF_RANGE(T) (__CPROVER_assert(0, "REPO-TABLE constant table lookup finds its key"), __CPROVER_assume(0), (T)0)
 u64 nondet_u64(void);
 #else
 #  include <setjmp.h>
@@ -53,6 +55,7 @@ void verif_native_exit(int outcome, const char *msg);
 #  define VERIF_THROW() verif_native_exit(VERIF_UNIMPL, "unimplemented")
 #  define VERIF_INDETERMINATE(T) ((T)0xA5A5A5A5A5A5A5A5ull)
 #  define VERIF_FN_CHECK(f) ((f).set ? (void)0 : verif_native_exit(VERIF_BADCALL, "bad_function_call"))
+#  define VERIF_OUT_OF_RANGE(T) (verif_native_exit(VERIF_OUTOFRANGE, "out_of_range"), (T)0)
 #endif
 
 #define VERIF_SWAP(a, b) do { __typeof__(a) verif_t = (a); (a) = (b); (b) = verif_t; } while (0)
